@@ -159,7 +159,7 @@ def stepSess (all : St) (s : Sess) : List String → Option (Sess × String)
     let d := dial C s.ccfg ⟨salt, rnd, ts⟩ t p
     let ok := t.Valid && RndOk p.length rnd
     some ({ s with c2s := d.segs, cw := some d.writer, reqSalt := d.reqSalt },
-      s!"{if ok then "ok" else "bad-choice"} inreq={d.inReq.length} segs {sums d.segs}")
+      s!"{if ok then "ok" else "bad-choice"} inreq={d.inReq.length} armed={if d.ctxArmed then 1 else 0} segs {sums d.segs}")
   | ["cwrite", d] => do
     let d ← parseData d; let w ← s.cw
     let (segs, w') := w.emit C (writeChunks d)
